@@ -2,6 +2,7 @@ import Mitx.Parser.RoundTripMain
 import Mitx.Parser.Lex
 import Mitx.Parser.Reject
 import Mitx.Parser.LexReject
+import Mitx.Parser.Fuel
 /-! # C03 — formula strings evaluate to the value mathematics assigns them
 
 Property theorems only. Model: token-level PEG parser `Mitx/Parser/Syntax.lean`, lexer `Mitx/Parser/Lex.lean`,
@@ -15,6 +16,23 @@ namespace C03
 theorem round_trip {V : Type} (A : Alg V) (e : E) :
     ∃ F, ∀ f, F ≤ f → ∃ t, pExpr f (render e) = some (t, []) ∧ evalT A t = denote A e :=
   parse_render A e
+
+/-- **Round trip for the executable parser.** The same statement about `parseToks` itself — the function with the concrete
+    fuel `20·|tokens| + 20` that the correspondence run drives — not merely about some sufficiently large fuel. -/
+theorem round_trip_executable {V : Type} (A : Alg V) (e : E) :
+    ∃ t, parseToks (render e) = some t ∧ evalT A t = denote A e := by
+  obtain ⟨F, hF⟩ := parse_render A e
+  obtain ⟨t, ht, hv⟩ := hF (max F (8 * (render e).length + 6)) (Nat.le_max_left _ _)
+  exact ⟨t, parseToks_of_pExpr (Nat.le_max_right _ _) ht, hv⟩
+
+/-- **Fuel adequacy**: beyond `8·|tokens| + 6` the fuel is irrelevant, so `parseToks = none` is a genuine rejection
+    (no larger fuel would accept the string) and the model parser is total. -/
+theorem fuel_adequate {ts : List Tok} (h : parseToks ts = none) (f : Nat) (hf : 8 * ts.length + 6 ≤ f) :
+    ∀ t, pExpr f ts ≠ some (t, []) :=
+  parseToks_none_stable h f hf
+
+theorem fuel_irrelevant (ts : List Tok) (f : Nat) (hf : 8 * ts.length + 6 ≤ f) : pExpr f ts = pExpr (8 * ts.length + 6) ts :=
+  pExpr_fuel_irrelevant ts f hf
 
 /-- Spaces are irrelevant anywhere: the lexer only ever sees the space-stripped characters. -/
 theorem spaces_irrelevant (s s' : String) (h : s.toList.filter (· != ' ') = s'.toList.filter (· != ' ')) :
